@@ -86,6 +86,26 @@ impl Domain for TsDomain {
                     Err(_) => "invalid".to_string(),
                 }
             },
+            "rt" => {
+                let ts = HLCTimestamp::from_u64(p_u64(t[1]));
+                match HLCTimestamp::from_str(&ts.to_string()) {
+                    Ok(ts) => format!("ok {}", ts.as_u64()),
+                    Err(_) => "invalid".to_string(),
+                }
+            },
+            "newf" => {
+                // newf <secs> <frac> <ctr> <node>: new(parts_as_duration(secs, frac), ctr, node)
+                let d = Duration::from_secs(p_u64(t[1])) + Duration::from_millis(p_u64(t[2]) * 4);
+                let ts = HLCTimestamp::new(d, p_u64(t[3]) as u16, p_u64(t[4]) as u8);
+                format!(
+                    "{} {} {} {} {}",
+                    ts.seconds(),
+                    ts.fractional(),
+                    ts.counter(),
+                    ts.node(),
+                    ts.as_u64()
+                )
+            },
             "cmp" => {
                 let a = HLCTimestamp::from_u64(p_u64(t[1]));
                 let b = HLCTimestamp::from_u64(p_u64(t[2]));
